@@ -17,6 +17,11 @@ def canonRepo (r : PRepo) : String :=
   toString (sortN (r.commits.map (·.id))) ++ "|" ++ toString (sortN (r.tables.map (·.id))) ++ "|" ++ toString (sortN r.blocks) ++ "|" ++
   toString (sortN r.idxs) ++ "|" ++ toString (sortN r.tblIdx) ++ "|" ++ toString (sortN r.profiles)
 
+/-- the clauses of `pruneVerdict` that must hold even for a run that reported an error -/
+def safetyClauses : List String :=
+  ["reachable-commits-kept", "tables-of-reachable-commits-kept", "table-index-and-profile-kept",
+   "blocks-and-block-indices-kept", "nothing-created"]
+
 def handleC12 (op : String) (input impl : Json) : Except String Json := do
   match op with
   | "prune" =>
@@ -38,6 +43,75 @@ def handleC12 (op : String) (input impl : Json) : Except String Json := do
       | .ok r => canonRepo r == canonRepo after
       | _ => false
     return reply mj agree viol
+  | "prune-fault" =>
+    -- prune while the ref store's scan fails part-way (disk I/O error), then once more on a
+    -- healthy store. Whatever the first run reports, nothing reachable from a ref may be lost or
+    -- created; if it reports success its result must be complete; the second run must complete.
+    let before ← prepoOf (← fld input "before")
+    let refs ← asNatList (fldD input "refs" (Json.arr #[]))
+    let m := prune Facts.pruneSearchChecked before refs
+    let mj := jRes (fun r => Json.str (canonRepo r)) m
+    if resClass impl == "panic" then return reply mj false ["completes-without-crashing"]
+    if resClass impl != "ok" then return reply mj false ["harness-setup-failed"]
+    let v := fldD impl "val" Json.null
+    let bf := fun (k : String) => (fldD v k (Json.bool false)).getBool?.toOption.getD false
+    let after ← prepoOf (← fld v "after")
+    let afterRetry ← prepoOf (← fld v "afterRetry")
+    let all1 := pruneVerdict before after refs
+    let viol :=
+      (if bf "pruneErr" then all1.filter safetyClauses.contains else all1) ++
+      (if bf "pruneErr" && !bf "faultHit" && resClass mj == "ok" then ["completes-without-error"] else []) ++
+      (if bf "usable" then [] else ["reachable-commits-still-readable"]) ++
+      (if bf "retryErr" && resClass mj == "ok" then ["completes-without-error-once-the-fault-is-gone"] else []) ++
+      (if bf "retryErr" then [] else (pruneVerdict before afterRetry refs).map (fun c => "after-retry:" ++ c)) ++
+      (if bf "usableRetry" then [] else ["after-retry:reachable-commits-still-readable"])
+    let agree := match m with
+      | .ok r => canonRepo r == canonRepo afterRetry
+      | _ => bf "retryErr"
+    return reply mj agree viol
+  | "gc" =>
+    -- `wrgl gc` / `wrgl prune` on a repository directory with transactions of several ages.
+    -- Roots that must survive: every ref that is not the staged ref of an expired transaction
+    -- (in progress, begun at least the time-to-live ago; only gc expires transactions). After the
+    -- command, with the refs that exist THEN as roots, every clause of pruneVerdict must hold.
+    if (input.getObjVal? "before").toOption.isNone then return reply Json.null true []
+    let before ← prepoOf (← fld input "before")
+    let gc ← fld input "gc"
+    let cmd ← strFld gc "cmd"
+    let ttl ← natFld gc "ttl"
+    let txs ← (← arrFld gc "txs").mapM fun t => do return ((← natFld t "age"), (← strFld t "status"))
+    let refList ← (← arrFld gc "refList").mapM fun t => do return ((← natFld t "c"), (← intFld t "tx"))
+    let expired := fun (i : Int) =>
+      if i < 0 then false else
+      match txs[i.toNat]? with
+      | some (age, status) => cmd == "gc" && status == "in-progress" && age ≥ ttl
+      | none => false
+    let idxs := List.range refList.length
+    let liveIdx := idxs.filter (fun i => match refList[i]? with | some (_, t) => !expired t | none => false)
+    let deadIdx := idxs.filter (fun i => match refList[i]? with | some (_, t) => expired t | none => false)
+    let liveTx := (List.range txs.length).filter (fun i => !expired (Int.ofNat i))
+    let mj := Json.mkObj [("refsAfter", jNats liveIdx), ("txsAfter", jNats liveTx)]
+    if resClass impl == "panic" then return reply mj false ["completes-without-crashing"]
+    if resClass impl != "ok" then return reply mj false ["harness-setup-failed"]
+    let v := fldD impl "val" Json.null
+    let bf := fun (k : String) => (fldD v k (Json.bool false)).getBool?.toOption.getD false
+    let after ← prepoOf (← fld v "after")
+    let refsAfter ← asNatList (← fld v "refsAfter")
+    let txsAfter ← asNatList (← fld v "txsAfter")
+    let extraRefs := (fldD v "extraRefs" (jNat 0)).getNat?.toOption.getD 0
+    let rootsAfter := refsAfter.filterMap (fun i => (refList[i]?).map (·.1))
+    let rootsLive := liveIdx.filterMap (fun i => (refList[i]?).map (·.1))
+    -- the history is closed in these repositories, so the command must complete
+    let mustComplete := resClass (jRes (fun r => Json.str (canonRepo r)) (prune Facts.pruneSearchChecked before rootsLive)) == "ok"
+    let viol :=
+      (if bf "cmdErr" && mustComplete then ["completes-without-error"] else []) ++
+      (if liveIdx.all refsAfter.contains && extraRefs == 0 then [] else ["refs-outside-expired-transactions-untouched"]) ++
+      (if bf "cmdErr" || deadIdx.all (fun i => !refsAfter.contains i) then [] else ["refs-of-expired-transactions-removed"]) ++
+      (if bf "cmdErr" || sortN txsAfter == liveTx then [] else ["exactly-the-expired-transactions-discarded"]) ++
+      (if bf "cmdErr" then (pruneVerdict before after rootsLive).filter safetyClauses.contains
+       else pruneVerdict before after rootsAfter) ++
+      (if bf "usable" then [] else ["reachable-commits-still-readable"])
+    return reply mj viol.isEmpty viol
   | "gc-cli" =>
     -- `wrgl gc` with a freshly opened transaction: its staged ref and everything it reaches survive,
     -- the orphaned commit goes (3 commits before: branch, orphan, staged; 2 after)
